@@ -325,7 +325,14 @@ func init() {
 				panic(hardErr("vRunSpawn: no such spawn"))
 			}
 			sp := c.st.spawns[i]
-			e.invoke(c.st, c.f, nil, c.in, sp.cc, sp.args, sp.fn)
+			if c.st.started == nil {
+				c.st.started = map[int]bool{}
+			}
+			if c.st.started[i] {
+				panic(hardErr("vRunSpawn: goroutine already started"))
+			}
+			c.st.started[i] = true
+			e.startThread(c.st, c.f, c.in, sp)
 			return false
 		},
 		"vSpawnIs": func(e *Engine, c *callCtx) bool {
@@ -389,6 +396,25 @@ func init() {
 				return true
 			}
 			c.set(v)
+			return true
+		},
+		"vYield": func(e *Engine, c *callCtx) bool {
+			// let runnable goroutines run until they block or finish, then come back
+			if !e.hasRunnable(c.st) {
+				return true
+			}
+			c.st.resume = append(c.st.resume, &Thread{frames: c.st.frames})
+			c.st.frames = nil
+			return false
+		},
+		"vBlockedThreads": func(e *Engine, c *callCtx) bool {
+			n := 0
+			for _, t := range c.st.threads {
+				if t.waitCh != 0 && !t.done {
+					n++
+				}
+			}
+			c.set(e.goInt(int64(n)))
 			return true
 		},
 		"vWaitGate": func(e *Engine, c *callCtx) bool { return true },
